@@ -309,6 +309,11 @@ class HttpParser(abc.ABC, Generic[_MsgT]):
         assert self._payload_parser is not None
         self._payload_parser.pause_reading()
 
+    @property
+    def has_pending_data(self) -> bool:
+        """Bytes of a not yet complete message head are buffered."""
+        return bool(self._lines or self._tail)
+
     def message_consumed(self) -> None:
         """Protocol drained a queued message; free a slot for parsing."""
         if self._msg_in_flight > 0:
